@@ -234,6 +234,100 @@ def check_world(run: Run, stream, case, world: E.World, mirror: E.Mirror, lean_o
                 run.violation(stream, case, {"relation": "document order sort", "raised": f"{type(ex).__name__}: {ex}"})
         if lean_ok and mt[0] == "t":
             reqs.append((case, mt, rows))
+            if len(order) <= 60:
+                for kinds in run.rng.sample(KIND_SETS, 2):
+                    FILTERED.append((case, mt, kinds, filtered_rows(world, root_obj, kinds)))
+
+
+KIND_SETS = [["tag", "text"], ["text"], ["tag"], ["tag", "text", "comment", "pi"], ["comment", "pi"], ["tag", "comment"], []]
+FILTERED: list = []
+
+
+def filtered_rows(world: E.World, root_obj, kinds):
+    """what the navigation API answers for every node of the tree while the default filters pass exactly the node kinds
+    `kinds` - compared with the filtered navigation model (Model/NavFilter.lean, theorems c05_filtered_*)"""
+    from delb import (TagNode, altered_default_filters, any_of, is_comment_node, is_processing_instruction_node, is_tag_node,
+                      is_text_node)
+    from _delb.exceptions import InvalidCodePath
+
+    table = {"tag": is_tag_node, "text": is_text_node, "comment": is_comment_node, "pi": is_processing_instruction_node}
+    flt = any_of(*[table[k] for k in kinds]) if kinds else (lambda n: False)
+    H = lambda x: None if x is None else world.handle.get(id(x))  # noqa: E731
+    L = lambda it: [world.handle.get(id(x)) for x in it]  # noqa: E731
+    nodes = []
+
+    def walk(node, path):
+        nodes.append((path, node))
+        if isinstance(node, TagNode):
+            with altered_default_filters():
+                kids = list(node.iterate_children())
+            for i, k in enumerate(kids):
+                walk(k, path + [i])
+
+    walk(root_obj, [])
+    out = {}
+    for path, n in nodes:
+        py = {}
+        try:
+            with altered_default_filters(flt):
+                py["children"] = L(n.iterate_children())
+                py["descendants"] = L(n.iterate_descendants())
+                py["following_siblings"] = L(n.iterate_following_siblings())
+                py["preceding_siblings"] = L(n.iterate_preceding_siblings())
+                py["following_sibling"] = H(n.fetch_following_sibling())
+                py["preceding_sibling"] = H(n.fetch_preceding_sibling())
+                py["following"] = L(n.iterate_following())
+                py["preceding"] = L(n.iterate_preceding())
+                py["first_child"], py["last_child"] = H(n.first_child), H(n.last_child)
+                py["last_descendant"] = H(n.last_descendant)
+                if isinstance(n, TagNode):
+                    py["len"] = len(n)
+                    items = []
+                    for i in range(len(n) + 1):
+                        try:
+                            items.append(H(n[i]))
+                        except IndexError:
+                            items.append(None)
+                    py["items"] = items
+                    try:
+                        py["item_last"] = H(n[-1])
+                    except IndexError:
+                        py["item_last"] = None
+                try:
+                    py["index"] = n.index
+                except InvalidCodePath:
+                    py["index"] = None
+            with altered_default_filters():
+                py["ancestors"] = L(n.iterate_ancestors(flt))
+        except Exception as ex:  # noqa: BLE001
+            py = {"raised": f"{type(ex).__name__}: {ex}"}
+        out[tuple(path)] = py
+    return out
+
+
+def compare_filtered(run: Run):
+    if not FILTERED:
+        return
+    answers = run_driver([{"cmd": "nav_filtered", "tree": mt, "kinds": kinds} for _, mt, kinds, _ in FILTERED])
+    n = 0
+    for (case, mt, kinds, rows), m in zip(FILTERED, answers):
+        if "driver_error" in m or "nodes" not in m:
+            raise common.ToolFailure(str(m)[:500])
+        for r in m["nodes"]:
+            py = rows.get(tuple(r["path"]))
+            if py is None:
+                continue
+            if "raised" in py:
+                run.mismatch("filtered-model", case, py, {"kinds": kinds, "path": r["path"]}, "navigation under filters raised")
+                continue
+            for k, v in py.items():
+                n += 1
+                if r.get(k) != v:
+                    run.mismatch("filtered-model", case, {"kinds": kinds, "path": r["path"], k: v}, {k: r.get(k)},
+                                 "navigation under default filters differs from the filtered model")
+    run.count("filtered-model", "relations compared x%d" % (n // 1000 * 1000))
+    run.extra["filtered_model_relations"] = n
+    FILTERED.clear()
 
 
 def _node(t, path):
@@ -312,7 +406,8 @@ def check(run: Run, lean: dict) -> int:
         "forests reached by random Legal edit histories (5-15 calls) over 12 seed documents; for every node of every tree: "
         "children, parent, index, len, item access (incl. negative), first/last child, following/preceding sibling(s), "
         "ancestors, depth, descendants, following, preceding, last_descendant, full_text, three traversers, document-order "
-        "sort of random tag subsets, and every iterator under each of four type filters; non-trivial = history of >= 3 calls"
+        "sort of random tag subsets, and every iterator under each of four type filters; for two of seven kind sets as default "
+        "filters every filtered relation of every node vs the filtered navigation model; non-trivial = history of >= 3 calls"
     )
     ok = lean.get("driver_ok", True)
     for f in common.known_findings("C05"):
@@ -325,6 +420,7 @@ def check(run: Run, lean: dict) -> int:
     for _ in range(n):
         run_one(run, "generated", E.pick_doc(run.rng), None, run.rng.randint(5, 15), ok, reqs)
     compare_with_model(run, reqs)
+    compare_filtered(run)
     run.extra["nodes_checked"] = sum(len(rows) for _, _, rows in reqs)
     return run.finish(lean, LEVEL, ASSUME, search=search)
 
